@@ -306,6 +306,40 @@ class FsFaults:
                 os._exit(CRASH_CODE)
             return r
         os.write = os_write
+        # positional / vectored descriptor writes are writes too (crash, error, silently short)
+        for name in ("pwrite", "writev"):
+            if not hasattr(os, name):
+                continue
+            s["os." + name] = getattr(os, name)
+
+            def make(real, name=name):
+                def w(fd, data, *rest):
+                    if not faults.active:
+                        return real(fd, data, *rest)
+                    size = len(data) if name == "pwrite" else sum(len(b) for b in data)
+                    idx = faults.op("write", f"fd{fd}", size)
+                    act = faults.action(idx)
+                    if act is None:
+                        return real(fd, data, *rest)
+                    if act[0] == "crash-before":
+                        os._exit(CRASH_CODE)
+                    if act[0] == "error":
+                        raise OSError(act[1], os.strerror(act[1]))
+                    if act[0] in ("short-silent", "crash-after-bytes", "short-then-error"):
+                        n = min(act[2] if act[0] == "short-then-error" else act[1], size)
+                        flat = bytes(data) if name == "pwrite" else b"".join(bytes(b) for b in data)
+                        r = (real(fd, flat[:n], *rest) if name == "pwrite" else real_write(fd, flat[:n])) if n else 0
+                        if act[0] == "crash-after-bytes":
+                            os._exit(CRASH_CODE)
+                        if act[0] == "short-then-error":
+                            raise OSError(act[1], os.strerror(act[1]))
+                        return r
+                    r = real(fd, data, *rest)
+                    if act[0] == "crash-after":
+                        os._exit(CRASH_CODE)
+                    return r
+                return w
+            setattr(os, name, make(getattr(os, name)))
 
     def uninstall(self):
         s = self.saved
@@ -315,6 +349,9 @@ class FsFaults:
         for name in SIMPLE_OPS:
             setattr(os, name, s["os." + name])
         os.write = s["os.write"]
+        for name in ("pwrite", "writev"):
+            if "os." + name in s:
+                setattr(os, name, s["os." + name])
 
 
 SIMPLE_OPS = ("remove", "unlink", "replace", "rename", "chmod", "fchmod", "fchown", "chown", "fsync", "fdatasync",
